@@ -117,7 +117,8 @@ def run(ctx):
         if isinstance(inc_, ast.Name):
             defs_ = [s_.value for s_ in walk_no_nested(f.node) if isinstance(s_, ast.Assign) and len(s_.targets) == 1 and isinstance(s_.targets[0], ast.Name) and s_.targets[0].id == inc_.id]
             inc_ = defs_[0] if len(defs_) == 1 else inc_
-        ctx.ob("R-ORDER", "C10.1", f, "counter grows by the number of points in the batch (x.size)", inc_ is not None and src(inc_) in (f"{xname}.size", f"len({xname})", f"{xname}.shape[0]"), f"`{fa.text(aug[0]) if aug else None}`")
+        bn_ = _batch_names(f, xname)
+        ctx.ob("R-ORDER", "C10.1", f, "counter grows by the number of points in the batch (x.size)", inc_ is not None and any(src(inc_) in (f"{b_}.size", f"len({b_})", f"{b_}.shape[0]") for b_ in bn_), f"`{fa.text(aug[0]) if aug else None}`")
     # ... and "once" includes what it calls: a counting evaluator reaches no other writer of the counter (an evaluator
     # that delegates a special case to its sibling and then falls through to its own increment counts those points twice)
     from ..callgraph import callgraph as _cgf
@@ -176,8 +177,11 @@ def run(ctx):
         okm = len(maps) == 1 and any(src(e) == "unit_hypercube" and t is True for e, t in guard_facts(fa, maps[0])) and fa.cfg.can_follow(maps[0], calls[0][0])
         # every other path (unit_hypercube false) reaches the call with x unchanged: no other assignment to x
         others = fa.find(lambda s: isinstance(s, (ast.Assign, ast.AugAssign)) and any(isinstance(t, ast.Name) and t.id == x for t in (s.targets if isinstance(s, ast.Assign) else [s.target])) and not (isinstance(s, ast.Assign) and isinstance(s.value, ast.Name) and s.value.id == x))  # (`x = x` is what an inlined helper's pass-through arm leaves)
-        ctx.ob("R-DOM", "C10.2", f, "unit-hypercube inputs are mapped to physical points before evaluation, and only then", okm and others == maps, f"mapping statements {[fa.text(m) for m in others]}")
-        ctx.ob("R-DOM", "C10.2", f, "the (possibly mapped) batch itself is what is evaluated", src(_bef_args(calls[0][1]).get("x")) == x, f"`{src(calls[0][1])[:100]}`")
+        # ... or the mapped batch is a local bound once to `self.from_unit_hypercube(x) if unit_hypercube else x` and x is left alone
+        mapped_ = [b_ for b_ in _batch_names(f, x) if b_ != x]
+        alt_ = bool(mapped_) and not others and src(_bef_args(calls[0][1]).get("x")) in mapped_
+        ctx.ob("R-DOM", "C10.2", f, "unit-hypercube inputs are mapped to physical points before evaluation, and only then", (okm and others == maps) or alt_, f"mapping statements {[fa.text(m) for m in others]}")
+        ctx.ob("R-DOM", "C10.2", f, "the (possibly mapped) batch itself is what is evaluated", src(_bef_args(calls[0][1]).get("x")) == x or alt_, f"`{src(calls[0][1])[:100]}`")
     f = ctx.fn(M + ".batch_evaluate_log_prior_unit_hypercube")
     c = FA(f).find_calls("batch_evaluate_function")
     ctx.ob("R-DOM", "C10.2", f, "unit-hypercube prior is evaluated on the unit-hypercube points directly", len(c) == 1 and src(_bef_args(c[0][1]).get("x")) == f.params()[1] and not any(isinstance(n, ast.Call) and call_name(n) == "self.from_unit_hypercube" for n in walk_no_nested(f.node)), "")
@@ -318,6 +322,27 @@ def _parent_call(fnode, node):
             if n.func is node or any(a is node for a in n.args) or any(k.value is node for k in n.keywords):
                 return n
     return None
+
+
+def _batch_names(f, xname):
+    """names that denote the batch in a wrapper: the parameter, and a local bound once to the (possibly mapped) batch -
+    `self.from_unit_hypercube(x) if unit_hypercube else x`"""
+    out = [xname]
+    for s_ in walk_no_nested(f.node):
+        if isinstance(s_, ast.Assign) and len(s_.targets) == 1 and isinstance(s_.targets[0], ast.Name) and s_.targets[0].id != xname:
+            v_ = s_.value
+            if isinstance(v_, ast.IfExp) and src(v_.test) == "unit_hypercube" and canon(v_.body) == f"self.from_unit_hypercube({xname})" and src(v_.orelse) == xname:
+                if sum(1 for t_ in walk_no_nested(f.node) if isinstance(t_, ast.Name) and t_.id == s_.targets[0].id and isinstance(t_.ctx, ast.Store)) == 1:
+                    out.append(s_.targets[0].id)
+    for s_ in walk_no_nested(f.node):
+        # (the same binding after normalisation: one assignment in each arm of `if unit_hypercube:`)
+        if isinstance(s_, ast.If) and src(s_.test) == "unit_hypercube" and len(s_.body) == 1 and len(s_.orelse) == 1 and all(isinstance(a_, ast.Assign) and len(a_.targets) == 1 and isinstance(a_.targets[0], ast.Name) for a_ in (s_.body[0], s_.orelse[0])):
+            a_, b_ = s_.body[0], s_.orelse[0]
+            n_ = a_.targets[0].id
+            if n_ == b_.targets[0].id and n_ != xname and canon(a_.value) == f"self.from_unit_hypercube({xname})" and src(b_.value) == xname:
+                if sum(1 for t_ in walk_no_nested(f.node) if isinstance(t_, ast.Name) and t_.id == n_ and isinstance(t_.ctx, ast.Store)) == 2 and n_ not in out:
+                    out.append(n_)
+    return out
 
 
 def _bef_args(call):
